@@ -30,9 +30,7 @@ use crate::{
 	log::{Log, LogAction},
 	multitree::{Children, NewNode, NodeAddress, NodeRef},
 	options::Options,
-	parking_lot::{
-		Condvar, Mutex, MutexGuard, RwLock, RwLockUpgradableReadGuard, RwLockWriteGuard,
-	},
+	parking_lot::{Condvar, Mutex, MutexGuard, RwLock, RwLockUpgradableReadGuard},
 	stats::StatSummary,
 	ColumnOptions, Key,
 };
@@ -902,46 +900,54 @@ impl DbInner {
 		};
 
 		if let Some(mut commit) = commit {
+			// The trees this commit dereferences and their write locks. The locks are taken by the
+			// deferral check and kept until the record is published: a client that asks for the read
+			// lock of such a tree meanwhile waits and then finds the removal in place. It never gets
+			// hold of a tree whose removal is planned but not visible yet.
+			let mut dereferenced_trees: Vec<(
+				ColId,
+				Key,
+				Arc<RwLock<Box<dyn TreeReader + Send + Sync>>>,
+			)> = Vec::new();
+			let mut tree_locks = Vec::new();
 			if commit.changeset.check_for_deferral {
 				// A commit with a tree dereference is at the head; the reader locks are not
 				// inspected yet.
 				#[cfg(pdb_verif)]
 				crate::verif::yield_point("process_commits.before_deferral_check");
-				let mut defer = false;
-				'outer: for (col, key_values) in commit.changeset.indexed.iter() {
+				for (col, key_values) in commit.changeset.indexed.iter() {
 					for change in &key_values.node_changes {
-						if let NodeChange::DereferenceChildren(_key, hash, _children) = change {
-							// Check if there are currently any locks on the tree. Will need to
-							// defer if there are.
-							let trees = self.trees.read();
-							if let Some(column_trees) = trees.get(&col) {
-								let mut tree_active = false;
-								if let Some(reader) = column_trees.readers.get(hash) {
-									let reader = reader.upgrade();
-									if let Some(reader) = reader {
-										if reader.is_locked() {
-											tree_active = true;
-										}
-									}
-								}
-								if tree_active {
-									defer = true;
-									break 'outer
+						if let NodeChange::DereferenceChildren(key, hash, _children) = change {
+							if !dereferenced_trees.iter().any(|(c, h, _)| c == col && h == hash) {
+								if let Some(tree) = self.get_tree(db, *col, key, false)? {
+									dereferenced_trees.push((*col, *hash, tree));
 								}
 							}
-							drop(trees);
+						}
+					}
+				}
+				let mut defer = false;
+				'outer: for (_col, hash, tree) in dereferenced_trees.iter() {
+					// Check if there are currently any locks on the tree. Will need to defer if
+					// there are. Never wait for a client here: it may in turn be waiting for a tree
+					// that is already locked for this commit.
+					match tree.try_write() {
+						Some(lock) => tree_locks.push(lock),
+						None => {
+							defer = true;
+							break 'outer
+						},
+					}
 
-							// Also check if there are any later commits in the queue that use this
-							// tree. Will need to defer if there are.
-							let queue = self.commit_queue.lock();
-							for commit in &queue.commits {
-								for (_col, change_set) in &commit.changeset.indexed {
-									for tree in &change_set.used_trees {
-										if tree == hash {
-											defer = true;
-											break 'outer
-										}
-									}
+					// Also check if there are any later commits in the queue that use this
+					// tree. Will need to defer if there are.
+					let queue = self.commit_queue.lock();
+					for commit in &queue.commits {
+						for (_col, change_set) in &commit.changeset.indexed {
+							for tree in &change_set.used_trees {
+								if tree == hash {
+									defer = true;
+									break 'outer
 								}
 							}
 						}
@@ -949,6 +955,7 @@ impl DbInner {
 				}
 				if defer {
 					// The commit goes back to the queue; nothing was planned.
+					tree_locks.clear();
 					#[cfg(pdb_verif)]
 					crate::verif::yield_point("process_commits.deferred");
 					let queue = self.commit_queue.lock();
@@ -1037,6 +1044,9 @@ impl DbInner {
 			// The record is visible in the log overlay, the commit overlay is not cleaned yet.
 			#[cfg(pdb_verif)]
 			crate::verif::yield_point("process_commits.after_end_record");
+
+			// The removals are published: clients may have the dereferenced trees again.
+			drop(tree_locks);
 
 			{
 				// Cleanup the commit overlay.
@@ -2566,19 +2576,18 @@ impl IndexedChangeSet {
 						column.write_plan(&Operation::Dereference(*hash), writer)?;
 						log::debug!(target: "parity-db", "Dereferencing root, rc={}", rc);
 						if rc == 1 {
-							let tree = db.get_tree(db, col, key, false).unwrap();
-							if let Some(tree) = tree {
-								let guard = tree.write();
-								let mut num_removed = 0;
-								self.write_dereference_children_plan(
-									column,
-									&guard,
-									children,
-									&mut num_removed,
-									writer,
-								)?;
-								log::debug!(target: "parity-db", "Dereferenced tree {:?}, removed {}", &key[0..3], num_removed);
-							}
+							// `process_commits` holds the write lock of this tree until the
+							// record is published.
+							let mut num_removed = 0;
+							self.write_dereference_children_plan(
+								db,
+								col,
+								column,
+								children,
+								&mut num_removed,
+								writer,
+							)?;
+							log::debug!(target: "parity-db", "Dereferenced tree {:?}, removed {}", &key[0..3], num_removed);
 						}
 					}
 					// TODO: Remove TreeReader from Db.
@@ -2596,8 +2605,9 @@ impl IndexedChangeSet {
 
 	fn write_dereference_children_plan(
 		&self,
+		db: &Arc<DbInner>,
+		col: ColId,
 		column: &HashColumn,
-		guard: &RwLockWriteGuard<'_, Box<dyn TreeReader + Send + Sync>>,
 		children: &Vec<u64>,
 		num_removed: &mut u64,
 		writer: &mut crate::log::LogWriter,
@@ -2616,7 +2626,7 @@ impl IndexedChangeSet {
 			// Can't move this after write_address_dec_ref_plan as write_address_dec_ref_plan might
 			// free the node meaning it could get reclaimed. Then get_node_children will return
 			// incorrect data.
-			let node = guard.get_node_children(address)?;
+			let node = db.get_node_children(col, address, false)?;
 			let (remains, _outcome) = column.write_address_dec_ref_plan(address, writer)?;
 			if !remains {
 				// Was removed
